@@ -236,6 +236,7 @@ AuthRowClass(rt, rq) ==
   LET a == rt.auth
       c == rq.cred
   IN CASE a.k = "none"  -> "none"
+       [] c.k # a.k     -> a.k \o "/material_of_" \o c.k         \* the material of another auth kind (or none at all)
        [] a.k = "basic" -> LET pre == IF a.pwform = "ref" THEN "basic_pwref/" ELSE "basic/"   \* password given as a secret reference
                            IN IF c.wf # "ok" THEN pre \o c.wf
                               ELSE IF BasicOutcome(a, c) = 0 THEN pre \o "right"
